@@ -23,7 +23,7 @@ from cassandra.cqlengine import operators as ops    # noqa: E402
 from cassandra.cqlengine import query as cq         # noqa: E402
 
 META = dict(
-    level='bounded_model_checking',
+    level='model_checking',
     level_text='every combination of requested filters, conditions and assignments within the bounds is explored (solver-forked choices) with symbolic operand values; per path z3 proves that each placeholder of the rendered statement is bound to the operand of the clause that introduced it, and the rendered parts are exactly the requested ones',
     level_note='statement shapes bounded (see bounds); the CQL text is concrete per path (placeholder ids are concrete), the bound values are symbolic; oracle fragments hand-written from the CQL grammar for collection updates',
     technique='symbolic execution (sx) of the real cassandra.cqlengine.statements classes and BatchQuery.execute with solver-forked statement shapes and symbolic operand values; z3 validity queries for placeholder/value identity',
